@@ -72,7 +72,8 @@ fn env_u64(k: &str, d: u64) -> u64 {
 
 pub fn run_limited(src: &Path, out: &Path, flags: Option<u32>) -> Outcome {
     use std::os::unix::process::ExitStatusExt;
-    let exe = std::env::var("C15_CHILD").map(PathBuf::from).unwrap_or_else(|_| std::env::current_exe().expect("current_exe"));
+    // our own image through /proc/<pid>/exe: still executable if a concurrent `cargo build` replaced the file on disk
+    let exe = std::env::var("C15_CHILD").map(PathBuf::from).unwrap_or_else(|_| PathBuf::from(format!("/proc/{}/exe", std::process::id())));
     let timeout = Duration::from_secs(env_u64("C15_TIMEOUT_S", 60));
     let as_kb = env_u64("C15_AS_MB", 4096) * 1024;
     let _ = fs::remove_file(out);
@@ -366,6 +367,518 @@ pub fn run_graph(args: &Args) {
                 S::k1("sorted", S::list(real_depth_sort(&c.graph).iter().map(|n| S::str(n)))),
                 S::k1("sorted_pruned", S::list(real_depth_sort(&pruned).iter().map(|n| S::str(n)))),
             ]),
+            S::k1("millis", S::int(o.millis as i128)),
+        ];
+        f.extend(outcome_fields(&o));
+        f
+    });
+}
+
+// ------------------------------------------------------------------------------------------------
+// c15mut: structural mutation of valid sources
+// ------------------------------------------------------------------------------------------------
+
+const TESTDATA: &str = "/repo/resources/testdata";
+
+/// (label, paths under testdata to copy, entry path)
+const REAL_BASES: &[(&str, &[&str], &str)] = &[
+    ("wght_var.designspace", &["wght_var.designspace", "WghtVar-Regular.ufo", "WghtVar-Bold.ufo"], "wght_var.designspace"),
+    ("static.designspace", &["static.designspace", "Static-Regular.ufo"], "static.designspace"),
+    ("glyphs3/WghtVar.glyphs", &["glyphs3/WghtVar.glyphs"], "glyphs3/WghtVar.glyphs"),
+    ("glyphs2/WghtVar.glyphs", &["glyphs2/WghtVar.glyphs"], "glyphs2/WghtVar.glyphs"),
+    ("glyphs3/NestedComponent.glyphs", &["glyphs3/NestedComponent.glyphs"], "glyphs3/NestedComponent.glyphs"),
+    ("glyphs2/Component.glyphs", &["glyphs2/Component.glyphs"], "glyphs2/Component.glyphs"),
+    ("fea_include.designspace", &["fea_include.designspace", "fea_include_ufo"], "fea_include.designspace"),
+    ("WghtVar-Regular.ufo", &["WghtVar-Regular.ufo"], "WghtVar-Regular.ufo"),
+    ("glyphs3/IntermediateLayer.glyphs", &["glyphs3/IntermediateLayer.glyphs"], "glyphs3/IntermediateLayer.glyphs"),
+    ("glyphs3/WghtVar.glyphspackage", &["glyphs3/WghtVar.glyphspackage"], "glyphs3/WghtVar.glyphspackage"),
+    ("glyphs2/Fea_Feature.glyphs", &["glyphs2/Fea_Feature.glyphs"], "glyphs2/Fea_Feature.glyphs"),
+];
+
+pub const MUT_KINDS: [&str; 14] = ["xml-drop", "xml-dup", "plist-drop", "plist-dup", "number", "truncate", "bytes", "delete",
+    "swap-default", "empty-axes", "fea-soup", "fea-include-cycle", "comp-cycle", "empty-file"];
+
+struct MutLog { kind: &'static str, file: String, detail: String }
+
+fn walk(root: &Path, rel: &Path, files: &mut Vec<PathBuf>, dirs: &mut Vec<PathBuf>) {
+    let Ok(rd) = fs::read_dir(root.join(rel)) else { return };
+    let mut es: Vec<_> = rd.flatten().map(|e| e.file_name()).collect();
+    es.sort();
+    for name in es {
+        let r = rel.join(&name);
+        if root.join(&r).is_dir() {
+            dirs.push(r.clone());
+            walk(root, &r, files, dirs);
+        } else {
+            files.push(r);
+        }
+    }
+}
+
+fn ext_of(p: &Path) -> &str { p.extension().and_then(|e| e.to_str()).unwrap_or("") }
+fn is_xml(p: &Path) -> bool { matches!(ext_of(p), "designspace" | "glif" | "plist") && !is_openstep(p) }
+/// OpenStep-plist text files of the Glyphs formats (.glyphs, and the .glyph/.plist files inside a .glyphspackage)
+fn is_openstep(p: &Path) -> bool {
+    matches!(ext_of(p), "glyphs" | "glyph") || p.components().any(|c| c.as_os_str().to_string_lossy().ends_with(".glyphspackage"))
+}
+fn is_text_source(p: &Path) -> bool { is_xml(p) || is_openstep(p) || ext_of(p) == "fea" }
+
+/// every XML element as (start, end) byte span
+fn xml_elements(b: &[u8]) -> Vec<(usize, usize)> {
+    let mut out = vec![];
+    let mut i = 0;
+    while i + 1 < b.len() {
+        if b[i] == b'<' && (b[i + 1].is_ascii_alphabetic()) {
+            let ns = i + 1;
+            let mut ne = ns;
+            while ne < b.len() && (b[ne].is_ascii_alphanumeric() || b[ne] == b'.' || b[ne] == b'_' || b[ne] == b'-') { ne += 1; }
+            let name = &b[ns..ne];
+            // end of the opening tag
+            let mut j = ne;
+            let mut quote: Option<u8> = None;
+            while j < b.len() {
+                match quote {
+                    Some(q) => { if b[j] == q { quote = None; } }
+                    None => {
+                        if b[j] == b'"' || b[j] == b'\'' { quote = Some(b[j]); }
+                        else if b[j] == b'>' { break; }
+                    }
+                }
+                j += 1;
+            }
+            if j >= b.len() { break; }
+            if b[j - 1] == b'/' {
+                out.push((i, j + 1));
+            } else {
+                // matching close tag with nesting of the same name
+                let mut depth = 1;
+                let mut k = j + 1;
+                let mut end = None;
+                while k < b.len() {
+                    if b[k] == b'<' {
+                        if b[k..].starts_with(b"</") && b[k + 2..].starts_with(name) && b.get(k + 2 + name.len()).is_some_and(|c| *c == b'>' || c.is_ascii_whitespace()) {
+                            depth -= 1;
+                            if depth == 0 {
+                                let mut e = k;
+                                while e < b.len() && b[e] != b'>' { e += 1; }
+                                end = Some((e + 1).min(b.len()));
+                                break;
+                            }
+                        } else if b[k + 1..].starts_with(name) && b.get(k + 1 + name.len()).is_some_and(|c| *c == b'>' || *c == b'/' || c.is_ascii_whitespace()) {
+                            // nested element of the same name (skip self-closing ones)
+                            let mut e = k;
+                            while e < b.len() && b[e] != b'>' { e += 1; }
+                            if e < b.len() && b[e - 1] != b'/' { depth += 1; }
+                        }
+                    }
+                    k += 1;
+                }
+                if let Some(e) = end { out.push((i, e)); }
+            }
+        }
+        i += 1;
+    }
+    out
+}
+
+/// balanced `{…}` / `(…)` blocks of an OpenStep plist (strings respected) as (start, end)
+fn plist_blocks(b: &[u8]) -> Vec<(usize, usize)> {
+    let mut out = vec![];
+    let mut stack: Vec<(u8, usize)> = vec![];
+    let mut i = 0;
+    let mut in_str = false;
+    while i < b.len() {
+        let c = b[i];
+        if in_str {
+            if c == b'\\' { i += 1; } else if c == b'"' { in_str = false; }
+        } else {
+            match c {
+                b'"' => in_str = true,
+                b'{' | b'(' => stack.push((c, i)),
+                b'}' | b')' => {
+                    if let Some((o, s)) = stack.pop() {
+                        if (o == b'{') == (c == b'}') { out.push((s, i + 1)); }
+                    }
+                }
+                _ => {}
+            }
+        }
+        i += 1;
+    }
+    out
+}
+
+/// numeric tokens (start, end): optional '-', digits, optional fraction; not glued to a letter
+fn number_tokens(b: &[u8]) -> Vec<(usize, usize)> {
+    let mut out = vec![];
+    let mut i = 0;
+    while i < b.len() {
+        if b[i].is_ascii_digit() && (i == 0 || !(b[i - 1].is_ascii_alphanumeric() || b[i - 1] == b'_' || b[i - 1] == b'.')) {
+            let mut s = i;
+            if s > 0 && b[s - 1] == b'-' { s -= 1; }
+            let mut e = i;
+            while e < b.len() && b[e].is_ascii_digit() { e += 1; }
+            if e + 1 < b.len() && b[e] == b'.' && b[e + 1].is_ascii_digit() {
+                e += 1;
+                while e < b.len() && b[e].is_ascii_digit() { e += 1; }
+            }
+            if e >= b.len() || !(b[e].is_ascii_alphabetic() || b[e] == b'_') {
+                out.push((s, e));
+            }
+            i = e;
+        } else {
+            i += 1;
+        }
+    }
+    out
+}
+
+const WILD_NUMBERS: &[&str] = &["99999999999999999999", "-99999999999999999999", "1e308", "-1e308", "1e309", "1e-320", "NaN", "nan", "inf",
+    "-inf", "-1", "0", "-0", "65535", "65536", "-32769", "32768", "4294967296", "2147483648", "-2147483649", "1e40", "0.0000001",
+    "16777217", "9007199254740993", "", "1.5", "0x10", "1,5", "+7"];
+
+const FEA_TOKENS: &[&str] = &["feature", "lookup", "liga", "kern", "mark", "test", "{", "}", ";", ";", "sub", "pos", "by", "from", "'", "@c", "@c = [a b];",
+    "[", "]", "a", "b", "bar", "plus", "c", "-", "10", "-32769", "99999999999", "<", ">", "<anchor 1 2>", "anchor", "NULL", "include(", ")", "table", "GDEF",
+    "name", "languagesystem", "DFLT", "dflt", "latn", "script", "language", "#", "\\", "\"", "\\1", "\\99999", "useExtension", "ignore", "lookupflag",
+    "RightToLeft", "markClass", "anonymous", "anon", "enum", "rsub", "\u{0}", "\u{feff}", "é", "\n", "\r\n", "variation", "conditionset", "wght", "=", ",", "(", "0x", "1.5", "a-b", ".notdef", "cid1"];
+
+fn glyph_names_in_glif(b: &[u8]) -> Option<String> {
+    let s = String::from_utf8_lossy(b);
+    let at = s.find("<glyph ")?;
+    let rest = &s[at..];
+    let n = rest.find("name=\"")? + 6;
+    let e = rest[n..].find('"')?;
+    Some(rest[n..n + e].to_string())
+}
+
+fn find_all(hay: &[u8], needle: &[u8]) -> Vec<usize> {
+    let mut out = vec![];
+    if needle.is_empty() || hay.len() < needle.len() { return out; }
+    for i in 0..=hay.len() - needle.len() {
+        if &hay[i..i + needle.len()] == needle { out.push(i); }
+    }
+    out
+}
+
+fn rand_bytes(rng: &mut Rng) -> u8 {
+    const POOL: &[u8] = b"<>\"'/{}();=\0\xff\xfe\x80&\\\n\r\t -+.eE0123456789";
+    if rng.chance(2, 3) { *rng.pick(POOL) } else { rng.below(256) as u8 }
+}
+
+/// Apply one mutation of `kind` under `root`; None = not applicable here.
+fn mutate_once(rng: &mut Rng, root: &Path, kind: &'static str) -> Option<MutLog> {
+    let mut files = vec![];
+    let mut dirs = vec![];
+    walk(root, Path::new(""), &mut files, &mut dirs);
+    files.retain(|f| f.file_name().is_some_and(|n| n != "out.ttf"));
+    let pick_file = |rng: &mut Rng, pred: &dyn Fn(&Path) -> bool| -> Option<PathBuf> {
+        let c: Vec<&PathBuf> = files.iter().filter(|f| pred(f)).collect();
+        if c.is_empty() { None } else { Some((*rng.pick(&c)).clone()) }
+    };
+    let log = |file: &Path, detail: String| Some(MutLog { kind, file: file.to_string_lossy().to_string(), detail });
+    match kind {
+        "xml-drop" | "xml-dup" => {
+            let f = pick_file(rng, &|p| is_xml(p))?;
+            let b = fs::read(root.join(&f)).ok()?;
+            let els = xml_elements(&b);
+            if els.is_empty() { return None; }
+            let (s, e) = *rng.pick(&els);
+            let mut nb = b[..s].to_vec();
+            if kind == "xml-dup" { nb.extend_from_slice(&b[s..e]); nb.extend_from_slice(&b[s..e]); }
+            nb.extend_from_slice(&b[e..]);
+            fs::write(root.join(&f), nb).ok()?;
+            let head: String = String::from_utf8_lossy(&b[s..e.min(s + 40)]).replace('\n', " ");
+            log(&f, format!("{s}..{e} {head}"))
+        }
+        "plist-drop" | "plist-dup" => {
+            let f = pick_file(rng, &|p| is_openstep(p))?;
+            let b = fs::read(root.join(&f)).ok()?;
+            let (s, e) = if rng.chance(1, 2) {
+                let blocks = plist_blocks(&b);
+                if blocks.is_empty() { return None; }
+                *rng.pick(&blocks)
+            } else {
+                // one line
+                let starts: Vec<usize> = std::iter::once(0).chain(find_all(&b, b"\n").into_iter().map(|i| i + 1)).filter(|i| *i < b.len()).collect();
+                let s = *rng.pick(&starts);
+                let e = b[s..].iter().position(|c| *c == b'\n').map(|k| s + k + 1).unwrap_or(b.len());
+                (s, e)
+            };
+            let mut nb = b[..s].to_vec();
+            if kind == "plist-dup" { nb.extend_from_slice(&b[s..e]); nb.extend_from_slice(&b[s..e]); }
+            nb.extend_from_slice(&b[e..]);
+            fs::write(root.join(&f), nb).ok()?;
+            let head: String = String::from_utf8_lossy(&b[s..e.min(s + 40)]).replace('\n', " ");
+            log(&f, format!("{s}..{e} {head}"))
+        }
+        "number" => {
+            let f = pick_file(rng, &|p| is_text_source(p))?;
+            let b = fs::read(root.join(&f)).ok()?;
+            // skip the XML prolog / DOCTYPE / root open tag (version="1.0" …): numbers of the document body only
+            let body = if is_xml(&f) {
+                ["<plist", "<designspace", "<glyph"].iter().filter_map(|r| find_all(&b, r.as_bytes()).first().copied()).min()
+                    .map(|r| r + b[r..].iter().position(|c| *c == b'>').unwrap_or(0)).unwrap_or(0)
+            } else { 0 };
+            let toks: Vec<(usize, usize)> = number_tokens(&b).into_iter().filter(|t| t.0 >= body).collect();
+            if toks.is_empty() { return None; }
+            let (s, e) = *rng.pick(&toks);
+            let w = *rng.pick(WILD_NUMBERS);
+            let mut nb = b[..s].to_vec();
+            nb.extend_from_slice(w.as_bytes());
+            nb.extend_from_slice(&b[e..]);
+            fs::write(root.join(&f), nb).ok()?;
+            let ctx_s = s.saturating_sub(24);
+            let ctx: String = String::from_utf8_lossy(&b[ctx_s..e]).replace('\n', " ");
+            log(&f, format!("@{s} '{ctx}' -> '{w}'"))
+        }
+        "truncate" => {
+            let f = pick_file(rng, &|_| true)?;
+            let b = fs::read(root.join(&f)).ok()?;
+            if b.is_empty() { return None; }
+            let at = rng.below(b.len());
+            fs::write(root.join(&f), &b[..at]).ok()?;
+            log(&f, format!("at {at} of {}", b.len()))
+        }
+        "empty-file" => {
+            let f = pick_file(rng, &|_| true)?;
+            fs::write(root.join(&f), b"").ok()?;
+            log(&f, String::new())
+        }
+        "bytes" => {
+            let f = pick_file(rng, &|_| true)?;
+            let mut b = fs::read(root.join(&f)).ok()?;
+            if b.is_empty() { return None; }
+            let n = 1 + rng.below(8);
+            let mut d = vec![];
+            for _ in 0..n {
+                let at = rng.below(b.len().max(1));
+                match rng.below(3) {
+                    0 => { let v = rand_bytes(rng); if at < b.len() { b[at] = v; } d.push(format!("r{at}={v:02x}")); }
+                    1 => { let v = rand_bytes(rng); b.insert(at.min(b.len()), v); d.push(format!("i{at}={v:02x}")); }
+                    _ => { if at < b.len() { b.remove(at); d.push(format!("d{at}")); } }
+                }
+            }
+            fs::write(root.join(&f), b).ok()?;
+            log(&f, d.join(","))
+        }
+        "delete" => {
+            if rng.chance(1, 3) && !dirs.is_empty() {
+                let d = rng.pick(&dirs).clone();
+                fs::remove_dir_all(root.join(&d)).ok()?;
+                log(&d, "dir".into())
+            } else {
+                let f = pick_file(rng, &|_| true)?;
+                fs::remove_file(root.join(&f)).ok()?;
+                log(&f, "file".into())
+            }
+        }
+        "swap-default" => {
+            let f = pick_file(rng, &|p| ext_of(p) == "designspace")?;
+            let s = fs::read_to_string(root.join(&f)).ok()?;
+            let hits = find_all(s.as_bytes(), b" default=\"");
+            if hits.is_empty() { return None; }
+            let at = *rng.pick(&hits) + 10;
+            let end = at + s[at..].find('"')?;
+            // another master's coordinate, an extreme, or something outside the axis
+            let xs: Vec<String> = find_all(s.as_bytes(), b"xvalue=\"").into_iter().filter_map(|i| { let a = i + 8; s[a..].find('"').map(|e| s[a..a + e].to_string()) }).collect();
+            let mut cands: Vec<String> = xs;
+            cands.extend(["0", "-1000", "1000000", "550.5"].map(String::from));
+            let v = rng.pick(&cands).clone();
+            let ns = format!("{}{}{}", &s[..at], v, &s[end..]);
+            fs::write(root.join(&f), ns).ok()?;
+            log(&f, format!("default {} -> {v}", &s[at..end]))
+        }
+        "empty-axes" => {
+            if let Some(f) = pick_file(rng, &|p| ext_of(p) == "designspace") {
+                let s = fs::read_to_string(root.join(&f)).ok()?;
+                let a = s.find("<axes")?;
+                let e = s.find("</axes>")? + 7;
+                let rep = *rng.pick(&["<axes/>", "<axes></axes>", ""]);
+                fs::write(root.join(&f), format!("{}{}{}", &s[..a], rep, &s[e..])).ok()?;
+                log(&f, format!("axes -> '{rep}'"))
+            } else {
+                let f = pick_file(rng, &|p| is_openstep(p))?;
+                let s = fs::read_to_string(root.join(&f)).ok()?;
+                let key = if s.contains("\naxes = (") { "\naxes = (" } else { "Axes;\nvalue = (" };
+                let a = s.find(key)? + key.len();
+                let e = a + s[a..].find(");")?;
+                fs::write(root.join(&f), format!("{}{}", &s[..a], &s[e..])).ok()?;
+                log(&f, "axes = ()".into())
+            }
+        }
+        "fea-soup" => {
+            let n = 3 + rng.below(40);
+            let soup: Vec<&str> = (0..n).map(|_| *rng.pick(FEA_TOKENS)).collect();
+            let soup = soup.join(" ");
+            write_fea(rng, root, &files, &dirs, &soup, kind)
+        }
+        "fea-include-cycle" => {
+            match rng.below(3) {
+                0 => write_fea(rng, root, &files, &dirs, "include(features.fea);\n", kind),
+                1 => {
+                    let r = write_fea(rng, root, &files, &dirs, "include(cyc_a.fea);\n", kind)?;
+                    // the include is resolved relative to the UFO's parent or the fea file: put the pair in every directory
+                    for d in dirs.iter().chain(std::iter::once(&PathBuf::new())) {
+                        let _ = fs::write(root.join(d).join("cyc_a.fea"), "include(cyc_b.fea);\n");
+                        let _ = fs::write(root.join(d).join("cyc_b.fea"), "include(cyc_a.fea);\n");
+                    }
+                    Some(r)
+                }
+                _ => {
+                    let r = write_fea(rng, root, &files, &dirs, "include(deep0.fea);\n", kind)?;
+                    for d in dirs.iter().chain(std::iter::once(&PathBuf::new())) {
+                        for k in 0..120 {
+                            let _ = fs::write(root.join(d).join(format!("deep{k}.fea")), format!("include(deep{}.fea);\n", k + 1));
+                        }
+                    }
+                    Some(r)
+                }
+            }
+        }
+        "comp-cycle" => {
+            // UFO: two glifs of one layer refer to each other (or one to itself)
+            let glifs: Vec<&PathBuf> = files.iter().filter(|f| ext_of(f) == "glif").collect();
+            if !glifs.is_empty() {
+                let a = (*rng.pick(&glifs)).clone();
+                let same_layer: Vec<&PathBuf> = glifs.iter().filter(|g| g.parent() == a.parent()).cloned().collect();
+                let b = if rng.chance(1, 4) { a.clone() } else { (*rng.pick(&same_layer)).clone() };
+                let na = glyph_names_in_glif(&fs::read(root.join(&a)).ok()?)?;
+                let nb = glyph_names_in_glif(&fs::read(root.join(&b)).ok()?)?;
+                for (file, base) in [(&a, &nb), (&b, &na)] {
+                    let s = fs::read_to_string(root.join(file)).ok()?;
+                    let comp = format!("<component base=\"{}\"/>", write::xml_escape(base));
+                    let ns = if let Some(p) = s.find("<outline>") {
+                        format!("{}{}{}", &s[..p + 9], comp, &s[p + 9..])
+                    } else if let Some(p) = s.find("<outline/>") {
+                        format!("{}<outline>{}</outline>{}", &s[..p], comp, &s[p + 10..])
+                    } else {
+                        let p = s.rfind("</glyph>")?;
+                        format!("{}<outline>{}</outline>{}", &s[..p], comp, &s[p..])
+                    };
+                    fs::write(root.join(file), ns).ok()?;
+                    if a == b { break; }
+                }
+                log(&a, format!("{na} <-> {nb}"))
+            } else {
+                // Glyphs source: a glyph's layer gets a component referring to the glyph itself
+                let f = pick_file(rng, &|p| matches!(ext_of(p), "glyphs" | "glyph"))?;
+                let s = fs::read_to_string(root.join(&f)).ok()?;
+                let (key, ins): (&str, fn(&str) -> String) = if s.contains("shapes = (") {
+                    ("shapes = (", |n| format!("\n{{\nref = {n};\n}},"))
+                } else if s.contains("components = (") {
+                    ("components = (", |n| format!("\n{{\nname = {n};\n}},"))
+                } else {
+                    ("paths = (", |_| String::new())
+                };
+                let hits = find_all(s.as_bytes(), key.as_bytes());
+                if hits.is_empty() { return None; }
+                let at = *rng.pick(&hits);
+                let gn_at = s[..at].rfind("glyphname = ")? + 12;
+                let gn_end = gn_at + s[gn_at..].find(';')?;
+                let name = s[gn_at..gn_end].to_string();
+                let ns = if key == "paths = (" {
+                    format!("{}components = (\n{{\nname = {name};\n}}\n);\n{}", &s[..at], &s[at..])
+                } else {
+                    format!("{}{}{}", &s[..at + key.len()], ins(&name), &s[at + key.len()..])
+                };
+                fs::write(root.join(&f), ns).ok()?;
+                log(&f, format!("{name} -> {name}"))
+            }
+        }
+        _ => None,
+    }
+}
+
+/// Put feature text into the source: a UFO's features.fea (prepended, appended or replacing), or the first
+/// `code = "…";` of a Glyphs file.
+fn write_fea(rng: &mut Rng, root: &Path, files: &[PathBuf], dirs: &[PathBuf], text: &str, kind: &'static str) -> Option<MutLog> {
+    let ufos: Vec<&PathBuf> = dirs.iter().filter(|d| ext_of(d) == "ufo").collect();
+    if !ufos.is_empty() {
+        // prefer a UFO that already has features (the default master's)
+        let with: Vec<&PathBuf> = ufos.iter().filter(|u| root.join(u).join("features.fea").exists()).cloned().collect();
+        let u = if !with.is_empty() && rng.chance(3, 4) { (*rng.pick(&with)).clone() } else { (*rng.pick(&ufos)).clone() };
+        let p = u.join("features.fea");
+        let old = fs::read_to_string(root.join(&p)).unwrap_or_default();
+        let (new, how) = match rng.below(3) { 0 => (format!("{text}\n{old}"), "prepend"), 1 => (format!("{old}\n{text}"), "append"), _ => (text.to_string(), "replace") };
+        fs::write(root.join(&p), new).ok()?;
+        return Some(MutLog { kind, file: p.to_string_lossy().to_string(), detail: format!("{how}: {}", text.chars().take(200).collect::<String>().replace('\n', " ")) });
+    }
+    let gl: Vec<&PathBuf> = files.iter().filter(|f| matches!(ext_of(f), "glyphs") || f.file_name().is_some_and(|n| n == "fontinfo.plist")).collect();
+    if gl.is_empty() { return None; }
+    let f = (*rng.pick(&gl)).clone();
+    let s = fs::read_to_string(root.join(&f)).ok()?;
+    let esc = text.replace('\\', "\\\\").replace('"', "\\\"").replace('\u{0}', "");
+    let ns = if let Some(p) = s.find("code = \"") {
+        let a = p + 8;
+        // end of the string literal
+        let mut e = a;
+        let b = s.as_bytes();
+        while e < b.len() && b[e] != b'"' { if b[e] == b'\\' { e += 1; } e += 1; }
+        format!("{}{}{}", &s[..a], esc, &s[e.min(s.len())..])
+    } else {
+        // no feature code yet: add a prefix entry right after the opening brace
+        let p = s.find('{')? + 1;
+        format!("{}\nfeaturePrefixes = (\n{{\ncode = \"{esc}\";\nname = Prefix;\n}}\n);{}", &s[..p], &s[p..])
+    };
+    fs::write(root.join(&f), ns).ok()?;
+    Some(MutLog { kind, file: f.to_string_lossy().to_string(), detail: text.chars().take(200).collect::<String>().replace('\n', " ") })
+}
+
+/// Materialise base source number `k` under `root`; returns (label, entry path).
+fn make_base(rng: &mut Rng, k: usize, root: &Path) -> (String, PathBuf) {
+    let n_bases = REAL_BASES.len() + 3;
+    match k % n_bases {
+        0 | 1 => {
+            let mut o = design::GenOpts::default();
+            o.nested = true; o.non_export = rng.chance(1, 2); o.transforms = rng.chance(1, 2); o.mapping = rng.chance(1, 3);
+            o.vertical = rng.chance(1, 4); o.metrics_vary = rng.chance(1, 3);
+            let mut d = design::gen_design(rng, &o);
+            let names = d.glyph_names();
+            d.features = Some(format!("languagesystem DFLT dflt;\nfeature test {{\n  sub {} by {};\n}} test;\n", names[0], names[1]));
+            (String::from("generated.designspace"), write::write_design(root, &d))
+        }
+        2 => {
+            // a generated static UFO with nested components, entered directly
+            let mut c = gen_graph(rng, 0);
+            c.flags = None;
+            let d = graph_design(&c);
+            write::write_design(root, &d);
+            (String::from("generated.ufo"), root.join(write::ufo_name(&d, 0)))
+        }
+        j => {
+            let (label, paths, entry) = REAL_BASES[j - 3];
+            for p in paths.iter() {
+                copy_tree(&Path::new(TESTDATA).join(p), &root.join(p)).expect("copy testdata");
+            }
+            (label.to_string(), root.join(entry))
+        }
+    }
+}
+
+pub fn run_mut(args: &Args) {
+    let seed = args.seed;
+    crate::run_cases("c15mut", args, move |i| {
+        let mut rng = Rng::for_case(seed, "c15mut", i);
+        let tmp = build::tmpdir("c15mut");
+        let src_root = tmp.path().join("src");
+        fs::create_dir_all(&src_root).unwrap();
+        let k = rng.below(1 << 20);
+        let (label, entry) = make_base(&mut rng, k, &src_root);
+        // every 16th case is the unmutated base (control: must build)
+        let n_muts = if i % 16 == 0 { 0 } else { match rng.below(20) { 0..=11 => 1, 12..=16 => 2, _ => 3 } };
+        let mut logs: Vec<MutLog> = vec![];
+        let mut tries = 0;
+        while logs.len() < n_muts && tries < 40 {
+            tries += 1;
+            let kind = MUT_KINDS[rng.below(MUT_KINDS.len())];
+            if let Some(l) = mutate_once(&mut rng, &src_root, kind) { logs.push(l); }
+        }
+        keep_dir("c15mut", i, &src_root);
+        let out = tmp.path().join("out.ttf");
+        let o = run_limited(&entry, &out, None);
+        let mut f = vec![
+            S::k1("source", S::str(&label)),
+            S::k1("muts", S::list(logs.iter().map(|l| S::list([S::atom(l.kind), S::str(&l.file), S::str(&l.detail)])))),
             S::k1("millis", S::int(o.millis as i128)),
         ];
         f.extend(outcome_fields(&o));
